@@ -43,8 +43,10 @@ func c07rangesExact(p *Program, r *Report, dec, cb *ssa.Function) {
 				func(lc *LinCtx) (Lin, bool) { return lc.Lin(pv), true }, 1, 8, "1..8 (group widths)")
 		}
 	}
-	if n < 4 {
-		r.Unresolved("C07.strict", fmt.Sprintf("refusals on a single character of bech32.Decode and on the group widths of ConvertBits (found %d, expected 4)", n))
+	// not a floor of four: a parameter check that goes through a predicate helper (benign round 4, C07-y2:
+	// `validGroupSize(bits)`) has no refusal that reads the parameter itself; the helper-inlined view sees it
+	if n < 1 {
+		r.Unresolved("C07.strict", "refusals on a single character of bech32.Decode or on the group widths of ConvertBits")
 	}
 }
 
